@@ -196,7 +196,7 @@ func c15SchedRun(c C15SchedCase) ([]*ev.Violation, *c15Collect, []string) {
 		i := i
 		ctx, cancel := context.WithCancel(context.WithValue(base, schedKey{}, i))
 		s.cancels[i] = cancel
-		per[i] = &c15Collect{ids: map[string]string{}, byOp: map[string]int{}, sameHost: c.SameHost || c.SameSP, sameSP: c.SameSP}
+		per[i] = &c15Collect{ids: map[string]string{}, byOp: map[string]int{}, sameHost: c.SameHost || c.SameSP, sameSP: c.SameSP, sharedReqIDs: c.SharedIDs}
 		wg.Add(1)
 		go func() {
 			defer wg.Done()
@@ -560,4 +560,38 @@ func TestC10Sched(t *testing.T) {
 		"C15/panic": "C10/panic:concurrent", "C15/certificate-reply": "C10/not-an-error-reply:certificate:concurrent", "C15/metadata-reply": "C10/not-an-error-reply:metadata:concurrent",
 		"C15/body-reply": "C10/not-an-error-reply:callback:concurrent", "C15/assertion-signature-does-not-verify": "C10/unsigned-or-wrongly-signed:concurrent",
 		"C15/success-for-pending-request": "C10/success-after-fault:concurrent"}, true)
+}
+
+// TestC02Sched: SSO requests of several providers overlap in generated ways - among them requests that carry the same message
+// ID - while one of them sits in a slow storage call. What is persisted for a request, and where its answer later goes, is the
+// registered endpoint of the provider that sent it.
+func TestC02Sched(t *testing.T) {
+	col := ev.For("C02", "exploration", c02Rule)
+	old := runtime.GOMAXPROCS(4)
+	defer runtime.GOMAXPROCS(old)
+	searchRapid(t, col, func(t *rapid.T) C15SchedCase {
+		c := genSchedFocused(t, []string{"sso", "sso", "flow-post", "flow-redirect"}, rapid.IntRange(0, 3).Draw(t, "sharedids") != 0, false)
+		c.SameHost = false
+		if c.Slow >= 0 && rapid.Bool().Draw(t, "slow-at-persist") {
+			c.SlowAt, c.CancelOn[c.Slow], c.Faults[c.Slow] = "storage:CreateAuthRequest", "", map[string]string{}
+		}
+		return c
+	}, func(c C15SchedCase) []*ev.Violation {
+		vs, _, trace := c15SchedRun(c)
+		var out []*ev.Violation
+		for _, v := range vs {
+			switch v.Key {
+			case "C15/stored-request-mixed-up", "C15/consumer-endpoint-depends-on-history", "C15/login-redirect-unknown-id":
+				out = append(out, ev.V("C02/persisted-pair-not-registered", "overlapping requests (schedule %s): %s", short(strings.Join(trace, " "), 200), v.What))
+			case "C15/callback-destination", "C15/callback-wrong-delivery", "C15/foreign-session-data":
+				out = append(out, ev.V("C02/delivered-to-unregistered-url", "overlapping requests (schedule %s): %s", short(strings.Join(trace, " "), 200), v.What))
+			case "C15/panic":
+				out = append(out, ev.V("C02/panic", "%s", v.What))
+			}
+		}
+		col.Case(len(trace) > c.N+2, ev.Fingerprint("sched", c.N, c.Ops, c.SharedIDs, c.SlowAt), []string{"scheduled-requests", fmt.Sprintf("scheduled/shared-ids=%v", c.SharedIDs)}, func() any {
+			return map[string]any{"case": c, "trace": strings.Join(trace, " ")}
+		})
+		return out
+	})
 }
